@@ -15,9 +15,10 @@ DTYPES = ['EInt', 'EString', 'EBoolean']
 # metamodel descriptions
 
 class Feat:
-    def __init__(self, fid, owner, name, ref, many, ordered, unique, cont, typ, opp=None):
+    def __init__(self, fid, owner, name, ref, many, ordered, unique, cont, typ, opp=None, transient=False):
         self.fid, self.owner, self.name, self.ref, self.many = fid, owner, name, ref, many
         self.ordered, self.unique, self.cont, self.typ, self.opp = ordered, unique, cont, typ, opp
+        self.transient = transient      # not persisted; behaves like any other feature in memory
 
     def line(self):
         b = lambda x: 1 if x else 0
@@ -102,7 +103,7 @@ def gen_mm(rng, profile='mixed'):
     # containment without opposite
     for _ in range(rng.choice([0, 1, 1])):
         mm.add_feat(owner=cls(), name='', ref=True, many=rng.random() < .6, ordered=rng.random() < .8, unique=True,
-                    cont=True, typ=('cls', cls()))
+                    cont=True, typ=('cls', cls()), transient=rng.random() < .3)
     # plain references without opposite (many ones may be non-unique: EList/EBag)
     for _ in range(rng.choice([0, 1, 2])):
         many = rng.random() < .6
@@ -131,7 +132,7 @@ def build_mm(mm):
     for f in mm.feats:
         if f.ref:
             ef = E.EReference(f.name, classes[f.typ[1]], upper=-1 if f.many else 1, ordered=f.ordered,
-                              unique=f.unique, containment=f.cont)
+                              unique=f.unique, containment=f.cont, transient=getattr(f, 'transient', False))
         else:
             ef = E.EAttribute(f.name, getattr(E, f.typ[1]), upper=-1 if f.many else 1, ordered=f.ordered,
                               unique=f.unique)
